@@ -261,3 +261,22 @@ func (w *World) observeCheckpoint(rc *Recorder, mode string, f func() error) {
 	}
 	rc.cw.Add("machine_ck", in, L(I(d), B(o.posts > 0)), cls, d != 0)
 }
+
+// observeReset: the sync state after a run-time ResetLocalState against the machine's (entry machine_reset)
+func (w *World) observeReset(rc *Recorder, st0 litestream.VerifSyncStateView) {
+	ps := int64(w.ldb.PageSize())
+	if ps == 0 {
+		return
+	}
+	frames := func(off int64) int64 {
+		if off <= 32 {
+			return 0
+		}
+		return (off - 32) / (ps + 24)
+	}
+	st1 := w.ldb.VerifSyncState()
+	rc.cw.Add("machine_reset",
+		L(B(st0.SyncedToWALEnd), B(st0.ReachedWALEnd), I(frames(st0.LastSyncedWALOffset))),
+		L(B(st1.SyncedToWALEnd), B(st1.ReachedWALEnd), I(frames(st1.LastSyncedWALOffset))),
+		"machine-reset", st0.SyncedToWALEnd || st0.ReachedWALEnd)
+}
